@@ -4,6 +4,7 @@
 package tooldriver
 
 import (
+	"bytes"
 	"bufio"
 	"crypto/sha256"
 	"encoding/hex"
@@ -344,6 +345,12 @@ func unresolvedMethods(src []byte) string {
 			return true
 		}
 		if !declared[sel.Sel.Name] {
+			// the emitter did write the method, but the text of a user code block
+			// (a comment opener, a raw string) swallows it: that is the grammar
+			// author's Go, not an incomplete emission
+			if bytes.Contains(src, []byte(") "+sel.Sel.Name+"(")) {
+				return true
+			}
 			missing = "(*" + id.Name + ")." + sel.Sel.Name
 		}
 		return true
